@@ -185,6 +185,12 @@ class ModelDriver:
             self.models[s] = m
             return None
         model = self.models.get(s)
+        if a == "LoadDoc":
+            from . import model_io
+            if getattr(self, "doc", None) is None or (model is not None and model._contexts):
+                raise Skip("no saved document")
+            self.models[s] = model_io.load(self, *self.doc)
+            return None
         if model is None:
             raise Skip("no model in slot")
         if a == "Init":
@@ -205,6 +211,12 @@ class ModelDriver:
                 self.models[t] = copy.deepcopy(model)
             else:
                 self.models[t] = pickle.loads(pickle.dumps(model))
+            return None
+        if a == "SaveDoc":
+            from . import model_io
+            if model is None:
+                raise Skip("no model")
+            self.doc = (op["fmt"], model_io.save(self, model, op["fmt"]))
             return None
         if a == "Merge":
             right = self.models.get(op["t"])
@@ -457,7 +469,9 @@ class ModelDriver:
             return None
         if a == "Annotate":
             x = op["x"]
-            if x in self.rx:
+            if x == "MODEL":
+                o = model
+            elif x in self.rx:
                 o = self.get_rxn(model, x)
             elif x in self.met:
                 o = self.get_met(model, x)
@@ -507,7 +521,7 @@ class ModelDriver:
             order[kind] = [rev.get(x.id, "?" + str(x.id)) for x in lst]
             o[kind] = order[kind]
         # DictList lookups for every id of every universe
-        pos, getok, owner = {}, {}, {}
+        pos, getok, owner = {"MODEL": MISSING}, {"MODEL": True}, {"MODEL": True}
         for kind, lst, uni, conc in (("rxns", model.reactions, RX, self.rx), ("mets", model.metabolites, MET, self.met),
                                      ("genes", model.genes, GENE, self.gene), ("groups", model.groups, GRP, self.grp)):
             for x in uni:
@@ -601,6 +615,12 @@ class ModelDriver:
         for g in GRP:
             ann[g] = 0
             note[g] = 0
+        try:
+            ann["MODEL"] = int(model.annotation.get("tok", "0"))
+            note["MODEL"] = int(model.notes.get("tok", "0"))
+        except (TypeError, ValueError, AttributeError):
+            ann["MODEL"] = note["MODEL"] = 0
+            inexact.append("ann:MODEL:bad")
         o.update({"S": S, "lb": lb, "ub": ub, "tt": tt, "rgenes": rgenes, "gprgenes": gprgenes, "objc": objc,
                   "sbo": sbo, "ann": ann, "note": note, "rxnMets": rxnMets})
         o["dir"] = str(model.objective_direction)
